@@ -12,14 +12,71 @@ fn run_case(input: &Sx) -> String {
     let mut state: St = State::new();
     let mut outs = vec![];
     for op in ops {
-        exec_stmt(&mut state, op, &mut outs);
+        exec_x(&mut state, op, &mut outs);
     }
     tagged("outs", outs)
 }
 use mahf::State;
 
+fn nat(a: &[Sx], i: usize) -> u64 { a[i].nat().expect("nat argument") }
+
+/// The extended operations of `Model/RegistryX.lean` on the REAL state: the guard-returning accessors used
+/// as lookups (acquire, read / replace through the guard, drop) and a write through the `RefMut` an
+/// inserting entry combinator returns. `None` = not an extended operation.
+fn exec_xop(state: &mut St, op: &Sx) -> Option<String> {
+    let (name, a) = op.head().expect("op");
+    if !matches!(name, "bor" | "trybor" | "bormut" | "trybormut" | "bval" | "trybval" | "bvalmut" | "trybvalmut"
+        | "ent-orins-w" | "ent-ordef-w") { return None; }
+    let k = nat(a, 0);
+    Some(with_key!(k, T => match name {
+        "bor" => or_panic(catch(|| { let g = state.borrow::<T>(); val(g.0) })),
+        "trybor" => match state.try_borrow::<T>() { Ok(g) => val(g.0), Err(e) => err_s(&e) },
+        "bormut" => or_panic(catch(|| { let mut g = state.borrow_mut::<T>(); val(std::mem::replace(&mut g.0, nat(a, 1))) })),
+        "trybormut" => match state.try_borrow_mut::<T>() {
+            Ok(mut g) => val(std::mem::replace(&mut g.0, nat(a, 1))), Err(e) => err_s(&e) },
+        "bval" => or_panic(catch(|| { let g = state.borrow_value::<T>(); val(*g) })),
+        "trybval" => match state.try_borrow_value::<T>() { Ok(g) => val(*g), Err(e) => err_s(&e) },
+        "bvalmut" => or_panic(catch(|| { let mut g = state.borrow_value_mut::<T>(); val(std::mem::replace(&mut *g, nat(a, 1))) })),
+        "trybvalmut" => match state.try_borrow_value_mut::<T>() {
+            Ok(mut g) => val(std::mem::replace(&mut *g, nat(a, 1))), Err(e) => err_s(&e) },
+        "ent-orins-w" => or_panic(catch(|| {
+            let mut g = state.entry::<T>().or_insert(T::from(nat(a, 1))); val(std::mem::replace(&mut g.0, nat(a, 2))) })),
+        "ent-ordef-w" => or_panic(catch(|| {
+            let mut g = state.entry::<T>().or_default(); val(std::mem::replace(&mut g.0, nat(a, 1))) })),
+        _ => unreachable!(),
+    }))
+}
+
+/// A statement of a C01 history: an extended operation, `with_inner_state(|st| { body; ok|err })` (any
+/// nesting) or a base registry operation (`reg::exec_rop`).
+fn exec_x(state: &mut St, s: &Sx, outs: &mut Vec<String>) {
+    let (name, a) = s.head().expect("stmt");
+    if name == "inner" {
+        let ok = a[0].atom() == Some("ok");
+        let body = &a[1..];
+        let mut inner = vec![];
+        let r = catch(|| state.with_inner_state(|st| {
+            for s in body { exec_x(st, s, &mut inner); }
+            if ok { Ok(()) } else { Err(eyre::eyre!("body failed")) }
+        }));
+        outs.extend(inner);
+        outs.push(match r {
+            Some(Ok(child)) => tagged("popped", map_s(&child, false, &|_| None)),
+            Some(Err(_)) => "(e exec)".into(),
+            None => "panic".into(),
+        });
+        return;
+    }
+    if let Some(o) = exec_xop(state, s) { outs.push(o); return; }
+    outs.push(exec_rop(state, s));
+}
+
 /// Every op shape over `keys` × `vals` (small parameters) used by the exhaustive enumeration.
-fn alphabet(keys: &[u64], vals: &[u64], full: bool) -> Vec<String> {
+/// level 0: reduced; 1: full base alphabet; 2: full + every extended operation; 3: reduced + four extended
+/// operations per type.
+fn alphabet(keys: &[u64], vals: &[u64], level: u8) -> Vec<String> {
+    let full = level == 1 || level == 2;
+    let xfew = level >= 2;
     let mut v: Vec<String> = vec!["(push)".into(), "(pop)".into()];
     for &k in keys {
         for &x in vals { v.push(format!("(ins {k} {x})")); }
@@ -53,6 +110,22 @@ fn alphabet(keys: &[u64], vals: &[u64], full: bool) -> Vec<String> {
             v.push(format!("(parins 1 {k} {x})"));
             v.push(format!("(req {k})"));
         }
+        if xfew {
+            // guard-returning accessors used as lookups; write through an inserting combinator's RefMut
+            v.push(format!("(trybval {k})"));
+            v.push(format!("(bvalmut {k} {x})"));
+            v.push(format!("(bor {k})"));
+            v.push(format!("(ent-orins-w {k} {x} {})", x + 1));
+        }
+        if level == 2 {
+            v.push(format!("(bval {k})"));
+            v.push(format!("(trybvalmut {k} {x})"));
+            v.push(format!("(trybor {k})"));
+            v.push(format!("(bormut {k} {x})"));
+            v.push(format!("(trybormut {k} {x})"));
+            v.push(format!("(ent-ordef-w {k} {x})"));
+            v.push(format!("(parget 2 {k})"));
+        }
     }
     v.push("(multi (0 1) 1)".into());
     v.push("(multip (1 0) 1)".into());
@@ -67,6 +140,11 @@ fn alphabet(keys: &[u64], vals: &[u64], full: bool) -> Vec<String> {
             v.push(format!("(inner {ok} (ins 0 8) (gset 0 9) (gget 1) (occ-rem 0))"));
         }
     }
+    if level == 2 {
+        // with_inner_state nested three deep, err in the middle
+        v.push("(inner ok (ins 0 8) (inner err (ins 1 7) (inner ok (ins 0 6) (bvalmut 1 5) (rem 0)) (trybval 0)) (tryget 1))".into());
+        v.push("(inner err (inner ok (inner ok (ent-orins-w 0 4 5) (set 1 6)) (bor 0)) (trybor 1))".into());
+    }
     if full {
         v.push("(multi (1 0) 2)".into());
         v.push("(multi (0 0) 1)".into());
@@ -77,9 +155,14 @@ fn alphabet(keys: &[u64], vals: &[u64], full: bool) -> Vec<String> {
 
 struct Gen { rng: Sm }
 impl Gen {
-    fn key(&mut self) -> u64 { if self.rng.chance(3, 4) { self.rng.below(2) } else { self.rng.below(4) } }
+    fn key(&mut self) -> u64 {
+        if self.rng.chance(1, 16) { return self.rng.below(NTYPES); }
+        if self.rng.chance(3, 4) { self.rng.below(2) } else { self.rng.below(4) }
+    }
     fn val(&mut self) -> u64 { self.rng.range(1, 60) }
     fn tuple(&mut self) -> String {
+        // arity 5..8 over all eight types (the instantiations `reg::multi` has)
+        if self.rng.chance(1, 8) { return nats(U8_TUPLES[self.rng.below(U8_TUPLES.len() as u64) as usize].to_vec()); }
         let n = self.rng.range(2, 4);
         let mut ks: Vec<u64> = (0..n).map(|_| self.rng.below(4)).collect();
         if self.rng.chance(1, 2) {
@@ -90,7 +173,25 @@ impl Gen {
         }
         nats(ks)
     }
+    /// an operation of the extended layer
+    fn xop(&mut self) -> String {
+        let k = self.key();
+        let v = self.val();
+        match self.rng.below(16) {
+            0..=1 => format!("(bval {k})"),
+            2..=3 => format!("(trybval {k})"),
+            4..=5 => format!("(bvalmut {k} {v})"),
+            6..=7 => format!("(trybvalmut {k} {v})"),
+            8 => format!("(bor {k})"),
+            9 => format!("(trybor {k})"),
+            10 => format!("(bormut {k} {v})"),
+            11 => format!("(trybormut {k} {v})"),
+            12..=13 => format!("(ent-orins-w {k} {v} {})", self.val()),
+            _ => format!("(ent-ordef-w {k} {v})"),
+        }
+    }
     fn op(&mut self) -> String {
+        if self.rng.chance(1, 7) { return self.xop(); }
         let k = self.key();
         let v = self.val();
         match self.rng.below(100) {
@@ -128,13 +229,13 @@ impl Gen {
             _ => "(dump)".into(),
         }
     }
-    /// `with_inner_state` with a random body (no raw push/pop inside), ok or err, nesting <= 2
+    /// `with_inner_state` with a random body (no raw push/pop inside), ok or err, nesting <= 4
     fn inner(&mut self, depth: u64) -> String {
         let ok = if self.rng.chance(1, 2) { "ok" } else { "err" };
         let n = self.rng.below(5);
         let mut body = vec![];
         for _ in 0..n {
-            if depth < 2 && self.rng.chance(1, 4) { body.push(self.inner(depth + 1)); continue; }
+            if depth < 4 && self.rng.chance(1, 3) { body.push(self.inner(depth + 1)); continue; }
             loop {
                 let o = self.op();
                 if o == "(push)" || o == "(pop)" || o.starts_with("(inner") { continue; }
@@ -144,6 +245,18 @@ impl Gen {
         }
         format!("(inner {ok} {})", body.join(" "))
     }
+    /// all eight types spread over a few scopes, then multi-borrows of arity 5..8
+    fn scenario_wide(&mut self, ops: &mut Vec<String>) {
+        for k in 0..NTYPES {
+            if self.rng.chance(1, 5) { ops.push("(push)".into()); }
+            if self.rng.chance(7, 8) { ops.push(format!("(ins {k} {})", self.val())); }
+        }
+        for _ in 0..self.rng.range(1, 3) {
+            let t = nats(U8_TUPLES[self.rng.below(U8_TUPLES.len() as u64) as usize].to_vec());
+            let acc = if self.rng.chance(1, 4) { "multip" } else { "multi" };
+            ops.push(format!("({acc} {t} {})", self.rng.range(1, 3)));
+        }
+    }
     /// shadow → remove underneath → entry on shadowed → pop
     fn scenario(&mut self, ops: &mut Vec<String>) {
         let k = self.key();
@@ -152,7 +265,10 @@ impl Gen {
         ops.push("(push)".into());
         if self.rng.chance(2, 3) { ops.push(format!("(ins {k} {c})")); }
         for _ in 0..self.rng.below(4) { ops.push(self.op()); }
-        match self.rng.below(7) {
+        match self.rng.below(10) {
+            7 => { ops.push(format!("(bvalmut {k} {c})")); ops.push(format!("(trybval {k})")); }
+            8 => { ops.push(format!("(trybormut {k} {c})")); ops.push(format!("(bor {k})")); }
+            9 => ops.push(format!("(ent-orins-w {k} {a} {c})")),
             5 => { ops.push(format!("(gset {k} {c})")); ops.push(format!("(gget {k})")); }
             6 => ops.push(self.inner(1)),
             0 => ops.push(format!("(rem {k})")),
@@ -193,13 +309,13 @@ fn main() {
     ];
     let keys = [0u64, 1];
     let vals = [1u64, 2];
-    let plans: Vec<(&str, bool, usize)> = if a.thorough {
-        vec![("exh3", true, 3), ("exh4", false, 4)]
+    let plans: Vec<(&str, u8, usize)> = if a.thorough {
+        vec![("exh2", 2, 2), ("exh3", 1, 3), ("exh3x", 3, 3), ("exh4", 0, 4)]
     } else {
-        vec![("exh2", true, 2), ("exh3", false, 3)]
+        vec![("exh2", 2, 2), ("exh3", 0, 3)]
     };
-    for (site, full, depth) in plans {
-        let alpha = alphabet(&keys, &vals, full);
+    for (site, level, depth) in plans {
+        let alpha = alphabet(&keys, &vals, level);
         for (pi, prefix) in prefixes.iter().enumerate() {
             if depth >= 4 && pi != 2 { continue; }
             let mut idx = vec![0usize; depth];
@@ -221,6 +337,7 @@ fn main() {
         let mut ops = vec![];
         while ops.len() < len {
             if g.rng.chance(1, 6) { g.scenario(&mut ops); }
+            else if g.rng.chance(1, 40) { g.scenario_wide(&mut ops); }
             else if g.rng.chance(1, 12) { let s = g.inner(1); ops.push(s); }
             else { ops.push(g.op()); }
         }
